@@ -144,7 +144,7 @@ namespace hmac_hash {
         const uint8_t *shifted_message;
         tmp_len = SHA224_256_BLOCK_SIZE - m_len;
         rem_len = length < tmp_len ? length : tmp_len;
-        memcpy(&m_block[m_len], message, rem_len);
+        if(rem_len > 0) memcpy(&m_block[m_len], message, rem_len);
         if(m_len + length < SHA224_256_BLOCK_SIZE) {
             m_len += length;
             return;
